@@ -25,6 +25,8 @@ theorem bloom_consts :
       ∧ Consts.bloomMidShift = 16 ∧ Consts.bloomDeltaShr = 17 ∧ Consts.bloomDeltaShl = 15
       ∧ Consts.bloomMinBits = 64 ∧ Consts.bloomKMin = 1 ∧ Consts.bloomKMax = 30 ∧ Consts.bloomKNum = 69 := by
   decide
+/-- since fix D19 the crate computes the number of filter bits in `u64` (it was `u32`) -/
+theorem bloom_bits_width : Consts.bloomBitsWidth = 64 := by decide
 /-- the default policy (10 bits per key) probes 6 bits per key -/
 theorem default_bloom_k : Consts.defaultBitsPerKey = 10 ∧ Bloom.kOf Consts.defaultBitsPerKey = 6 := by decide
 theorem display_writes_err : Consts.displayWritesErr = true := by decide
